@@ -3,7 +3,7 @@ import json, random
 from vlib import *
 import fam_api as fa
 
-LOGINS = ["ok", "refuse", "noidtoken", "badsig", "wrongiss", "wrongaud", "expired", "expired-just", "nousername"]
+LOGINS = ["ok", "refuse", "noidtoken", "badsig", "wrongiss", "wrongaud", "expired", "expired-just", "nousername", "manyclaims", "laterclaims"]
 
 
 def base(store="cookie", sel="roundrobin", hosts=None, split=False):
@@ -20,7 +20,7 @@ def c13(work, tier, seed):
             for lg in LOGINS:
                 if st == "expired-after-failed" and lg not in ("ok", "nousername"):
                     continue
-                for rep in range(1 if tier == "quick" or st.startswith("expired") else 3):
+                for rep in range((6 if lg in ("manyclaims", "laterclaims") and st == "issued" else 1) if tier == "quick" or st.startswith("expired") else 3):
                     sc = {"id": "cb%04d" % (len(scripts) + len(slow)), "kind": "callback", "cfg": cfg, "state": st, "login": lg, "user": rng.choice(["user1", "Ünï cødé", "bob@corp.example", "x" * 200])}
                     # an expired state means waiting out the two-minute lifetime: these scripts are spread over the
                     # instances instead of queueing up on one
